@@ -121,16 +121,36 @@ def main():
     parts = qual.split(".")
     for p in parts:
         target = getattr(target, p)
-    args = dict(params)
+    import inspect
+
     raised = None
     result = None
     out = None
     try:
-        if "self" in args and len(parts) > 1:
-            self_ = args.pop("self")
-            r = target(self_, **args)
+        sig = inspect.signature(target)
+        pos, kw = [], {}
+        for name, prm in sig.parameters.items():
+            if name not in params:
+                # a parameter the counter-model leaves unconstrained: any value will do
+                if name == "self" or prm.default is not inspect.Parameter.empty or prm.kind == inspect.Parameter.VAR_POSITIONAL:
+                    continue
+                from jsonpath_rfc9535.tokens import Token, TokenType
+
+                params[name] = Token(TokenType.EOF, "", 0, "") if name == "token" else None
+            v = params[name]
+            if prm.kind == inspect.Parameter.VAR_POSITIONAL:
+                pos.extend(list(v))
+            elif prm.kind == inspect.Parameter.KEYWORD_ONLY:
+                kw[name] = v
+            else:
+                pos.append(v)
+        if parts[-1] == "__init__" and "self" not in params:
+            cls = getattr(m, parts[0])
+            obj = object.__new__(cls)
+            r = target(obj, *pos, **kw)
+            env["self"] = obj
         else:
-            r = target(**args)
+            r = target(*pos, **kw)
         if hasattr(r, "__next__"):
             out = []
             for x in r:
